@@ -370,7 +370,7 @@ def add_field_value_groups(ctx, rng, groups):
         groups.append({'abbr': abbr, 'cfgs': {'a': {'syntax': syn, 'options': oa}, 'b': {'syntax': syn, 'options': ob}},
                        'checks': [('cosmetic', 'a', 'b')], 'variant': 'fields'})
         n_sw += 1
-    n = 110 if quick else 2500
+    n = 110 if quick else 1200
     for _ in range(n):
         groups.append(make_group(rng, variant='fields'))
     ctx.cov['field_value_groups'] = {'sweep': n_sw, 'random': n}
@@ -392,7 +392,7 @@ def add_name_case_groups(ctx, rng, groups):
         groups.append({'abbr': abbr, 'cfgs': {'a': a, 'd': d}, 'checks': [('cosmetic', 'a', 'd'), ('depth', 'd', None)],
                        'variant': 'case'})
         n_sw += 1
-    n = 100 if quick else 2500
+    n = 100 if quick else 1200
     for _ in range(n):
         groups.append(make_group(rng, variant='case'))
     ctx.cov['name_case_groups'] = {'sweep': n_sw, 'random': n}
